@@ -474,7 +474,7 @@ func StreamMatrix() *m.Design {
 	watch := &m.Method{Name: "watch", Streaming: "result",
 		Payload: obj(fld("id", str(), true), fld("since", i64(), false), fld("tag", str(), false)),
 		Result:  m.UserRef("Event"),
-		HTTP:    &m.HTTPEndpoint{Routes: get("/streams/{id}/watch"), Path: []m.Mapping{{Attr: "id"}}, Query: []m.Mapping{{Attr: "since"}}, Headers: []m.Mapping{{Attr: "tag", Wire: "X-Tag"}}}}
+		HTTP:    &m.HTTPEndpoint{Routes: append(get("/streams/{id}/watch"), m.Route{Verb: "GET", Path: "/streams/watch/{id}"}), Path: []m.Mapping{{Attr: "id"}}, Query: []m.Mapping{{Attr: "since"}}, Headers: []m.Mapping{{Attr: "tag", Wire: "X-Tag"}}}}
 	collect := &m.Method{Name: "collect", Streaming: "payload",
 		Payload:          obj(fld("id", str(), true), fld("mode", str(), false)),
 		StreamingPayload: m.UserRef("Sample"),
